@@ -48,6 +48,8 @@ type Reader struct {
 	truncAt   int // -1: none; EOF after this many bytes
 	failAt    int // -1: none; ErrIO once pos reaches this offset (sticky)
 	failed    bool
+	onceAt    int // -1: none; ErrIO exactly once when pos reaches this offset (transient)
+	onceHit   bool
 	Calls     int
 	Delivered int
 	SawEOF    bool
@@ -56,7 +58,7 @@ type Reader struct {
 // NewReader draws a delivery profile from the tape.  The all-zero tape gives
 // ModeAll, EOF separate, no zero reads.
 func NewReader(r *rt.Run, name string, data []byte) *Reader {
-	rd := &Reader{run: r, name: name, data: data, truncAt: -1, failAt: -1}
+	rd := &Reader{run: r, name: name, data: data, truncAt: -1, failAt: -1, onceAt: -1}
 	t := r.T
 	rd.Mode = t.Weighted([]int{4, 2, 2, 2, 2}, "rd.mode")
 	rd.EOFTogether = t.Bool(1, 3, "rd.eof")
@@ -71,13 +73,13 @@ func NewReader(r *rt.Run, name string, data []byte) *Reader {
 
 // NewPlainReader has the plain profile (everything at once, separate EOF) and draws nothing.
 func NewPlainReader(r *rt.Run, name string, data []byte) *Reader {
-	return &Reader{run: r, name: name, data: data, truncAt: -1, failAt: -1}
+	return &Reader{run: r, name: name, data: data, truncAt: -1, failAt: -1, onceAt: -1}
 }
 
 // NewFixedReader has an explicit, replicable profile: chunk bytes per call
 // (0 = as much as fits) and the EOF style.  It draws nothing from the tape.
 func NewFixedReader(r *rt.Run, name string, data []byte, chunk int, eofTogether bool) *Reader {
-	rd := &Reader{run: r, name: name, data: data, truncAt: -1, failAt: -1, Mode: ModeFixed, Chunk: chunk, EOFTogether: eofTogether}
+	rd := &Reader{run: r, name: name, data: data, truncAt: -1, failAt: -1, onceAt: -1, Mode: ModeFixed, Chunk: chunk, EOFTogether: eofTogether}
 	return rd
 }
 
@@ -121,8 +123,18 @@ func (rd *Reader) Read(p []byte) (int, error) {
 	if rd.failed {
 		return 0, ErrIO
 	}
+	if rd.onceAt >= 0 && !rd.onceHit && rd.pos >= rd.onceAt {
+		rd.onceHit = true
+		r.Fault("read.transient-eio")
+		r.Event("read", "transient-eio", rd.name)
+		return 0, ErrIO
+	}
 	lim := rd.limit()
 	failLim := -1
+	endLim := lim
+	if rd.onceAt >= 0 && !rd.onceHit && rd.onceAt < lim && rd.onceAt > rd.pos {
+		lim = rd.onceAt // deliver exactly up to the fault point first
+	}
 	if rd.failAt >= 0 && rd.failAt <= lim {
 		failLim = rd.failAt
 		lim = failLim
@@ -177,7 +189,7 @@ func (rd *Reader) Read(p []byte) (int, error) {
 	copy(p, rd.data[rd.pos:rd.pos+n])
 	rd.pos += n
 	rd.Delivered += n
-	atEnd := failLim < 0 && rd.pos >= lim
+	atEnd := failLim < 0 && rd.pos >= endLim
 	if atEnd && rd.EOFTogether {
 		rd.SawEOF = true
 		r.Stats["rd.n_eof_together"]++
@@ -187,6 +199,16 @@ func (rd *Reader) Read(p []byte) (int, error) {
 	r.Event("read", "data", fmt.Sprintf("%s n=%d", rd.name, n))
 	return n, nil
 }
+
+// FailOnceAt plans a TRANSIENT fault: when k bytes have been delivered the next
+// Read returns (0, ErrIO) exactly once; the stream then continues normally.
+func (rd *Reader) FailOnceAt(k int) {
+	rd.onceAt = k
+	rd.run.Event("fault", "transient-eio-planned", fmt.Sprintf("%s at=%d", rd.name, k))
+}
+
+// OnceHit reports whether the transient fault was returned to the caller.
+func (rd *Reader) OnceHit() bool { return rd.onceHit }
 
 // Failed reports whether the planned EIO was actually returned to the caller.
 func (rd *Reader) Failed() bool { return rd.failed }
